@@ -168,6 +168,9 @@ def compare(ctx, obl_prefix, ref, got, rc, feats, scale):
 # cases
 # ----------------------------------------------------------------------------------------
 
+EXTRA_AFFINE = [(-5.0, 4.0), (100.0, 100.0), (0.0, 1.0e-3), (0.0, 1.0e6), (-1.0e-3, 2.0e-3)]
+
+
 def _shape_alphabet(tier):
     q = tier == 'quick'
     out = []
@@ -194,6 +197,22 @@ def gen_cases(tier, seed):
     shapes = _shape_alphabet(tier)
     for d in shapes:
         cases.append(dict(mode='span_eval', shape=d))
+    # data variety: knot ranges far from [0,1] and very short or long ranges, kept as given, under every span search / evaluator;
+    # decimal and 1/7 knots; the same maps in the normalise-or-not comparison
+    for d in shapes[2:40:5]:
+        for a, s in EXTRA_AFFINE:
+            for norm in (False, True):
+                cases.append(dict(mode='span_eval', shape=d, affine=[[a, s]] * d['pdim'], normalize_kv=norm, variety='range'))
+            cases.append(dict(mode='normalize', shape=d, affine=[[a, s]] + [list(EXTRA_AFFINE[(k + 1) % len(EXTRA_AFFINE)])
+                                                                         for k in range(d['pdim'] - 1)], variety='range'))
+    for p in (1, 2, 3):
+        for fr in ([0.1, 0.35, 0.7][:p + 1], [1.0 / 7.0, 3.0 / 7.0] + ([3.0 / 7.0] if p >= 2 else [])):
+            kv = [0.0] * (p + 1) + fr + [1.0] * (p + 1)
+            for rat in (False, True):
+                d = A.shape_desc([kv], [p], rat, 3, 'coded', 'coded')
+                cases.append(dict(mode='span_eval', shape=d, variety='knots'))
+                for a, s in EXTRA_AFFINE[:3]:
+                    cases.append(dict(mode='span_eval', shape=d, affine=[[a, s]], normalize_kv=False, variety='knots'))
     for d in shapes:
         if d['pdim'] == 3 or len(d['kvs'][0]) > 2 * (d['degrees'][0] + 1) or tier == 'thorough':
             pass
@@ -250,10 +269,14 @@ def _span_eval(case, ctx):
     from geomdl import helpers, evaluators
     desc = case['shape']
     pd = desc['pdim']
-    ref_obj = S.build(desc, ctx.seed)
+    aff = [tuple(x) for x in case['affine']] if case.get('affine') else None
+    norm = case.get('normalize_kv', True)
+    raw = desc if aff is None else dict(desc, kvs=[A.affine_kv(kv, a, s) for kv, (a, s) in zip(desc['kvs'], aff)], normalize_kv=norm)
+    baff = None if (aff is None or norm) else aff
+    ref_obj = S.build(raw, ctx.seed)
     scale = S.max_abs(S.snapshot(ref_obj))
-    ref = battery(ref_obj, desc['kvs'], desc['degrees'])
-    ctx.state(dict(d=desc, cfg='default'), nontrivial=False)
+    ref = battery(ref_obj, desc['kvs'], desc['degrees'], aff=baff)
+    ctx.state(dict(d=desc, cfg='default', aff=aff, n=norm), nontrivial=False)
     alts = {1: evaluators.CurveEvaluator2, 2: evaluators.SurfaceEvaluator2}
     for span_name, span in (('linear', helpers.find_span_linear), ('binary', helpers.find_span_binsearch)):
         for ev_name in ('default', 'alternative'):
@@ -263,14 +286,15 @@ def _span_eval(case, ctx):
                 continue
             if 'config' in case and case['config'] != [span_name, ev_name]:
                 continue
-            feats = dict(pdim=pd, rational=desc['rational'], span=span_name, evaluator=ev_name, degrees=desc['degrees'])
+            feats = dict(pdim=pd, rational=desc['rational'], span=span_name, evaluator=ev_name, degrees=desc['degrees'],
+                         affine=[list(x) for x in aff] if aff else None, normalize_kv=norm)
             rc = dict(case, config=[span_name, ev_name])
-            ctx.state(dict(d=desc, cfg=[span_name, ev_name]), nontrivial=True)
+            ctx.state(dict(d=desc, cfg=[span_name, ev_name], aff=aff, n=norm), nontrivial=True)
             try:
-                obj = S.build(desc, ctx.seed, find_span_func=span)
+                obj = S.build(raw, ctx.seed, find_span_func=span)
                 if ev_name == 'alternative':
                     obj.evaluator = alts[pd](find_span_func=span)
-                got = battery(obj, desc['kvs'], desc['degrees'])
+                got = battery(obj, desc['kvs'], desc['degrees'], aff=baff)
             except Exception as e:
                 ctx.check('C17.span_evaluator.no_new_failure', False, rc, feats, 'call valid in the default configuration succeeds',
                           repr(e))
